@@ -584,7 +584,8 @@ class FmtStr:
         """Gets atts shared among all nonzero length component Chunks"""
         # TODO cache this, could get ugly for large FmtStrs
         atts = {}
-        first = self.chunks[0]
+        nonempty = [fs for fs in self.chunks if len(fs) > 0]
+        first = nonempty[0] if nonempty else self.chunks[0]
         for att in sorted(first.atts):
             # TODO how to write this without the '???'?
             if all(
